@@ -64,6 +64,7 @@ def handle (line : String) : String :=
   | ["wire", c, i, pl] => toHex (Spec.wire c.toNat! i.toNat! (parseHex pl))
   | ["wiregen", c, i, l, s, m] => summary (Spec.wire c.toNat! i.toNat! (lcgPayload l.toNat! s.toNat! m.toNat!)) ++ " same"
   | ["ck", h] => let s := parseHex h; s!"{Spec.ckA s},{Spec.ckB s}"
+  | ["ckgen", l, sd, m] => let s := lcgPayload l.toNat! sd.toNat! m.toNat!; s!"{Spec.ckA s},{Spec.ckB s} true"
   | ["layout", c, n] => (match specLayout c n.toNat! with | some l => showLayout l | none => "no-layout")
   | ["read", c, n, pl] => runRead c n pl
   | ["reenc", c, n, pl] => (match specLayout c n.toNat! with
